@@ -50,11 +50,13 @@ type pairJ struct {
 
 // outcome of one update as seen at the state machine / client boundary.
 type outcome struct {
-	Code    uint64 // codeSuccess / codeMismatch / other
-	Pair    pairJ  // decoded result pair
-	PairOK  bool   // result carried a decodable pair
-	PairRaw string
+	Code   uint64 // codeSuccess / codeMismatch / other
+	Pair   pairJ  // decoded result pair
+	PairOK bool   // result carried a decodable pair
+	Raw    []byte // undecoded result data
 }
+
+func (o outcome) raw() string { return short(string(o.Raw)) }
 
 type verdict struct {
 	Sig  string
@@ -79,7 +81,7 @@ func (c *CAS) Judge(op, key, val string, ver uint64, o outcome) (v *verdict, cla
 	if exists {
 		if ver == cur.Ver {
 			if o.Code != codeSuccess {
-				return &verdict{"current-version-rejected:" + op, fmt.Sprintf("%s of existing key %q with its current version %d answered code %d (data %s), expected success", op, key, ver, o.Code, o.PairRaw)}, ""
+				return &verdict{"current-version-rejected:" + op, fmt.Sprintf("%s of existing key %q with its current version %d answered code %d (data %s), expected success", op, key, ver, o.Code, o.raw())}, ""
 			}
 			if op == "set" {
 				if vv := c.checkSetPair(key, val, o); vv != nil {
@@ -94,11 +96,11 @@ func (c *CAS) Judge(op, key, val string, ver uint64, o outcome) (v *verdict, cla
 		}
 		if o.Code != codeMismatch {
 			return &verdict{fmt.Sprintf("stale-version-accepted:%s:supplied-%s", op, rel()),
-				fmt.Sprintf("%s of existing key %q (current version %d) with version %d answered code %d (data %s), expected version mismatch", op, key, cur.Ver, ver, o.Code, o.PairRaw)}, ""
+				fmt.Sprintf("%s of existing key %q (current version %d) with version %d answered code %d (data %s), expected version mismatch", op, key, cur.Ver, ver, o.Code, o.raw())}, ""
 		}
 		if !o.PairOK || o.Pair != (pairJ{key, cur.Val, cur.Ver}) {
 			return &verdict{"mismatch-does-not-report-current-pair:" + op,
-				fmt.Sprintf("version mismatch on %q reported %s, current pair is {%q %q %d}", key, o.PairRaw, key, cur.Val, cur.Ver)}, ""
+				fmt.Sprintf("version mismatch on %q reported %s, current pair is {%q %q %d}", key, o.raw(), key, short(cur.Val), cur.Ver)}, ""
 		}
 		return nil, "mismatch-" + rel()
 	}
@@ -130,7 +132,7 @@ func (c *CAS) Judge(op, key, val string, ver uint64, o outcome) (v *verdict, cla
 // version handed out before.
 func (c *CAS) checkSetPair(key, val string, o outcome) *verdict {
 	if !o.PairOK || o.Pair.Key != key || o.Pair.Value != val {
-		return &verdict{"set-result-pair", fmt.Sprintf("successful set of %q=%q reported %s", key, val, o.PairRaw)}
+		return &verdict{"set-result-pair", fmt.Sprintf("successful set of %q=%q reported %s", key, short(val), o.raw())}
 	}
 	if o.Pair.Ver <= c.MaxVer {
 		return &verdict{"version-not-larger-than-earlier-ones", fmt.Sprintf("successful set of %q got version %d; the largest version handed out before is %d (0 = none yet)", key, o.Pair.Ver, c.MaxVer)}
